@@ -492,7 +492,11 @@ func c12SpecForms(rt *rapid.T) {
 				nullable := true
 				for i := range typedWant.Elems {
 					typedWant.Elems[i] = want.Elems[i]
-					if i >= keep && rep.Fields != nil && !rep.Fields[i].Nillable() {
+					fr := rep.Elem
+					if rep.Fields != nil {
+						fr = rep.Fields[i]
+					}
+					if i >= keep && (fr == nil || !fr.Nillable()) {
 						nullable = false // a plain value field cannot show null: it is zeroed, which FromGo cannot tell from a zero value
 					}
 				}
